@@ -728,6 +728,14 @@ func mat6(c *Ctx) {
 			default:
 				c.Bad(key, mu.Pos(), "the exclusion is not limited to env-backed options")
 			}
+			// an excluded option only steps itself aside: the loop over the group's options is not left
+			// early (other than by returning a match)
+			if sl, h, isR := rangeElemHeader(mu.Key); isR && h != nil {
+				_ = sl
+				okB, _ := noBreak(h)
+				c.Check(okB, Q(fn)+":every-option-offered", mu.Pos(), "every option of the group is offered the arguments; an excluded one is passed over alone",
+					"the loop over the group's options can stop early: an excluded (env-backed) option would keep the options behind it from being matched")
+			}
 		})
 	}
 	if n == 0 {
@@ -972,6 +980,36 @@ func mat7(c *Ctx) {
 				owns = append(owns, own{r, d, touchedOf(r)})
 				k, isK := ir.ConstInt(r.Results[1])
 				c.Check(isK && k == d, key, r.Pos(), fmt.Sprintf("an own match drops %d token(s) and reports %d", d, k), fmt.Sprintf("an own match drops %d token(s) from the vector but reports %d consumed", d, k))
+				// content: everything before the occurrence and everything behind it is handed on untouched and
+				// in order; in between at most one new token (what is left of a folded group)
+				if idxParam != nil {
+					tch := touchedOf(r)
+					seq, okS := c.evalSeq(stripConv(r.Results[2]), 0)
+					ckey := key + ":content"
+					if !okS {
+						c.Undecided(ckey, r.Pos(), "cannot read off how the returned vector is assembled (the copies into the new vector do not tile it exactly, or an operation the model does not cover is used)")
+					} else {
+						seq = seq.normal()
+						I := lin{t: map[linKey]int64{{idxParam, false}: 1}}
+						L := lin{t: map[linKey]int64{{args, true}: 1}}
+						okC := false
+						isIvl := func(p seqPiece, lo, hi lin) bool {
+							return p.base == ssa.Value(args) && linEq(p.lo, lo) && linEq(p.hi, hi)
+						}
+						after := I.add(linConst(tch), 1)
+						switch len(seq) {
+						case 1:
+							// nothing before or nothing behind the occurrence cannot be told statically; one interval
+							// is right only if it is the whole vector minus nothing (never for an own match)
+						case 2:
+							okC = isIvl(seq[0], linConst(0), I) && isIvl(seq[1], after, L)
+						case 3:
+							okC = isIvl(seq[0], linConst(0), I) && seq[1].base == nil && isIvl(seq[2], after, L)
+						}
+						c.Check(okC, ckey, r.Pos(), fmt.Sprintf("returns args[:idx] ++ (at most one rewritten token) ++ args[idx+%d:]", tch),
+							fmt.Sprintf("the returned vector is %s, expected args[:idx] ++ (at most one rewritten token) ++ args[idx+%d:]: tokens before or behind the occurrence are lost, duplicated or reordered", seq, tch))
+					}
+				}
 			}
 		}
 		// foreign branches
@@ -1071,7 +1109,32 @@ func mat7(c *Ctx) {
 						continue
 					}
 					if k == 0 {
-						continue // gives the scan up; not a skip
+						// gives the scan up: only because the vector has run out (the foreign option's value is
+						// missing), never at a complete foreign occurrence, behind which the own one may follow
+						outOfTokens := false
+						for _, cd := range ir.DominatingConds(b) {
+							bo2, isBo := cd.V.(*ssa.BinOp)
+							if !isBo {
+								continue
+							}
+							for _, side := range []ssa.Value{bo2.X, bo2.Y} {
+								if lc, isCall := side.(*ssa.Call); isCall {
+									if bi, isB := lc.Call.Value.(*ssa.Builtin); isB && bi.Name() == "len" {
+										a := lc.Call.Args[0]
+										if sl, isSl := a.(*ssa.Slice); isSl {
+											a = sl.X
+										}
+										if a == ssa.Value(args) {
+											outOfTokens = true
+										}
+									}
+								}
+							}
+							// idx+1 == len(args) style tests mention len(args) on one side as well (covered above)
+						}
+						c.Check(outOfTokens, key, ret.Pos(), "gives the scan up at a foreign option only because the vector has run out of tokens",
+							"the scan is given up at a complete occurrence of another option: an occurrence of this option behind it would not be found (the order of options would matter)")
+						continue
 					}
 					sf := map[string]bool{}
 					for _, cd := range ir.DominatingConds(b) {
